@@ -1,10 +1,10 @@
 //@ crate: grin_core
-//@ target: core/src/pow/cuckarooz.rs
+//@ target: core/src/pow/cuckaroo.rs
 //@ assume: siphash_block is replaced by a table of fresh nondeterministic words, one per queried nonce (nonces are strictly ascending so each is queried once): a sound over-approximation of 'all header seeds' -- every graph on the chosen edges
 //@ assume: global::proofsize stubbed to the cycle length L of the harness; BOUNDED stand-in: L in {4} quick, {6, 8} thorough (mainnet L = 42 is NOT proved); node_bits = 3 so that node collisions are frequent
-//@ harness c05_cuckarooz_cycle_4 kind=bounded tier=thorough optional=1 fns=CuckaroozContext::verify bound=cycle_length_4,_edge_bits_2..=3_node_mask_7
-//@ harness c05_cuckarooz_cycle_6 kind=bounded tier=thorough optional=1 fns=CuckaroozContext::verify bound=cycle_length_6
-//@ harness c05_cuckarooz_cycle_8 kind=bounded tier=thorough optional=1 fns=CuckaroozContext::verify bound=cycle_length_8
+//@ harness c05_cuckaroo_cycle_4 kind=bounded tier=thorough optional=1 fns=CuckarooContext::verify bound=cycle_length_4,_edge_bits_2..=3_node_mask_7
+//@ harness c05_cuckaroo_cycle_6 kind=bounded tier=thorough optional=1 fns=CuckarooContext::verify bound=cycle_length_6
+//@ harness c05_cuckaroo_cycle_8 kind=bounded tier=thorough optional=1 fns=CuckarooContext::verify bound=cycle_length_8
 use crate::verif_kani_support::*;
 
 static mut PS: usize = 0;
@@ -21,17 +21,17 @@ fn stub_siphash_block(_v: &[u64; 4], _nonce: u64, _rot_e: u8, _xor_all: bool) ->
 	}
 }
 
-/// Graph definition (Cuckarooz: mono-partite, undirected): the L edges (u_i, v_i) form one
-/// simple cycle through all of them iff every node value occurs at exactly two endpoints and
-/// walking from edge 0 (leave each node by its other endpoint's edge) returns to the start
-/// after exactly L steps.
+/// Graph definition (Cuckaroo: bipartite u/v, undirected): endpoint 2i is the u-node of edge i,
+/// endpoint 2i+1 its v-node; two endpoints meet iff they are on the same side and carry the same
+/// node value.  The L edges form one simple cycle through all of them iff every endpoint meets
+/// exactly one other endpoint and walking from edge 0 returns to the start after exactly L steps.
 fn is_single_cycle(ep: &[u64], l: usize) -> bool {
 	let mut i = 0;
 	while i < 2 * l {
 		let mut c = 0;
 		let mut k = 0;
 		while k < 2 * l {
-			if ep[k] == ep[i] {
+			if (k & 1) == (i & 1) && ep[k] == ep[i] {
 				c += 1;
 			}
 			k += 1;
@@ -48,7 +48,7 @@ fn is_single_cycle(ep: &[u64], l: usize) -> bool {
 		let mut other = cur;
 		let mut k = 0;
 		while k < 2 * l {
-			if k != cur && ep[k] == ep[cur] {
+			if k != cur && (k & 1) == (cur & 1) && ep[k] == ep[cur] {
 				other = k;
 			}
 			k += 1;
@@ -62,7 +62,7 @@ fn is_single_cycle(ep: &[u64], l: usize) -> bool {
 	cur == 0 && steps == l
 }
 
-macro_rules! cuckarooz_cycle {
+macro_rules! cuckaroo_cycle {
 	($name:ident, $l:expr, $unw:expr) => {
 		#[kani::proof]
 		#[kani::unwind($unw)]
@@ -75,7 +75,7 @@ macro_rules! cuckarooz_cycle {
 				PS = L;
 				CALLS = 0;
 			}
-			let ctx = CuckaroozContext { params: CuckooParams::new(5, 3, L).unwrap() };
+			let ctx = CuckarooContext { params: CuckooParams::new(5, 3, L).unwrap() };
 			let raw: [u64; L] = kani::any();
 			let words: [u64; L] = kani::any();
 			let mut nonces = Vec::with_capacity(L);
@@ -101,10 +101,10 @@ macro_rules! cuckarooz_cycle {
 			let proof = Proof { edge_bits: 5, nonces };
 			let accepted = ctx.verify(&proof).is_ok();
 			let expected = ok_shape && is_single_cycle(&ep, L);
-			assert!(accepted == expected, "C05: Cuckarooz accepts exactly the simple L-cycles with ascending in-range nonces");
+			assert!(accepted == expected, "C05: Cuckaroo accepts exactly the simple L-cycles with ascending in-range nonces");
 		}
 	};
 }
-cuckarooz_cycle!(c05_cuckarooz_cycle_4, 4, 10);
-cuckarooz_cycle!(c05_cuckarooz_cycle_6, 6, 14);
-cuckarooz_cycle!(c05_cuckarooz_cycle_8, 8, 18);
+cuckaroo_cycle!(c05_cuckaroo_cycle_4, 4, 10);
+cuckaroo_cycle!(c05_cuckaroo_cycle_6, 6, 14);
+cuckaroo_cycle!(c05_cuckaroo_cycle_8, 8, 18);
